@@ -314,11 +314,17 @@ package ocimem
 //@   requires repoWF(repo) && !found && retErr == nil
 //@   ensures[a-direct-hit-is-recorded-and-stops-the-search] info.desc.Digest == digest ==> found && !result
 //@   ensures[the-search-continues-only-while-nothing-is-found] result ==> !found && retErr == nil
+// (a nested manifest is read as what the reference to it says it is - the
+// media type of the descriptor that names it - not as whatever was last
+// pushed under its digest)
+//@   ensures[nested-manifests-are-read-as-they-are-referenced] ncallsOf("manifestReferences") <= 1 &&
+//@     (ncallsOf("manifestReferences") == 1 ==> calls[lastOf("manifestReferences")].arg.0 == info.desc.MediaType)
 
 // (trusted: the table manifestIterators holds functions that return a
 // non-nil iterator or an error)
 //@ func manifestReferences
 //@   trusted
+//@   log
 //@   modifies nothing
 //@   ensures[iterator-or-error] result.1 == nil ==> result.0 != nil
 //@ fn-type-pure descIter
